@@ -13,7 +13,7 @@ add("C03", "checks/c03_match.c", ["default-plain", "default-asan", "c89-plain", 
     "accepted (pattern, header) pairs (thorough: a 1/16 subsample, lower bound)",
     extra_sources=["kit/ref_match.c"],
     exhaustive=dict(quick=False, thorough=True),
-    rule_more="digit-bearing stems; suffix digit strings padded to 11..30 digits; program data behind every dispatched header; SCPI_Match with the length of a larger buffer holding the terminated header",
+    rule_more="digit-bearing stems; suffix digit strings padded to 11..30 digits; program data behind every dispatched header; SCPI_Match with the length of a larger buffer holding the terminated header; dispatched header lines ended by LF, by a flush call, or behind an empty line and then flushed",
     technique="differential runtime monitor: real matchCommand / SCPI_Match / SCPI_Input dispatch + SCPI_CommandNumbers + SCPI_IsCmd against an "
               "independent slot-assignment reference matcher over an exhaustive bounded enumeration of patterns and headers; exact-size heap "
               "header and numbers buffers under ASan+UBSan, guard cells in the -O2 build",
